@@ -41,6 +41,34 @@ pub const U: &[UVal] = &[
     UVal { label: "{k:1}", ctor: "let @ at \"k\" be 1\n" },
     UVal { label: "[1,[2]]", ctor: "rock w@ with 2\nrock @ with 1\nrock @ with w@\n" },
     UVal { label: "[[]]", ctor: "rock w@\nrock @ with 1\nlet @ at 0 be w@\n" },
+    // thresholds an implementation may treat specially
+    UVal { label: "65", ctor: "put 65 into @\n" },
+    UVal { label: "255", ctor: "put 255 into @\n" },
+    UVal { label: "256", ctor: "put 256 into @\n" },
+    UVal { label: "55296", ctor: "put 55296 into @\n" },
+    UVal { label: "2^31", ctor: "put 2147483648 into @\n" },
+    UVal { label: "2^32", ctor: "put 4294967296 into @\n" },
+    UVal { label: "2^63", ctor: "put 9223372036854775808 into @\n" },
+    UVal { label: "2^64", ctor: "put 18446744073709551616 into @\n" },
+    UVal { label: "1e15", ctor: "put 1e15 into @\n" },
+    UVal { label: "1e16", ctor: "put 1e16 into @\n" },
+    UVal { label: "1e-16", ctor: "put 1 over 1e16 into @\n" },
+    UVal { label: "denormal", ctor: "put 1 over 1e308 over 1e15 into @\n" },
+    UVal { label: "0.1+0.2", ctor: "put 0.1 plus 0.2 into @\n" },
+    UVal { label: "1/3", ctor: "put 1 over 3 into @\n" },
+    UVal { label: "-0.5", ctor: "put -0.5 into @\n" },
+    UVal { label: "\"-0\"", ctor: "put \"-0\" into @\n" },
+    UVal { label: "\" \"", ctor: "put \" \" into @\n" },
+    UVal { label: "\"A\"", ctor: "put \"A\" into @\n" },
+    UVal { label: "\"é😀\"", ctor: "put \"é😀\" into @\n" },
+    UVal { label: "\"false\"", ctor: "put \"false\" into @\n" },
+    UVal { label: "\"10\"", ctor: "put \"10\" into @\n" },
+    UVal { label: "\"9\"", ctor: "put \"9\" into @\n" },
+    UVal { label: "long string", ctor: "put \"0123456789012345678901234567890123456789012345678901234567890123456789\" into @\n" },
+    UVal { label: "[1..9]", ctor: "rock @ with 1, 2, 3, 4, 5, 6, 7, 8, 9\n" },
+    UVal { label: "[1]+{k:2}", ctor: "rock @ with 1\nlet @ at \"k\" be 2\n" },
+    UVal { label: "[mysterious]", ctor: "let @ at 0 be mysterious\n" },
+    UVal { label: "[[[1]]]", ctor: "let @ at 0 at 0 at 0 be 1\n" },
 ];
 
 /// a smaller universe for cubic families: one value per kind plus the sharpest boundaries
